@@ -1056,18 +1056,15 @@ func newHistory(c *drv.Ctx, w *drv.Worker, r *rand.Rand, tag string, nkeys int) 
 	x.keys, x.extras = buildUniverse(r, nkeys)
 	x.ends = append(append([]string{}, x.keys...), x.extras...)
 	sort.Strings(x.ends)
-	// instance ids really are adjacent?
-	if ri, err := cl.Repo(h.Root); err == nil {
-		ids := map[string]float64{}
-		for n, raw := range ri.DataInstances {
-			var d struct{ Base struct{ ID float64 } }
-			if json.Unmarshal(raw, &d) == nil {
-				ids[n] = d.Base.ID
-			}
-		}
-		if ids["kv"] == ids["kv0"]+1 && ids["kv2"] == ids["kv"]+1 {
-			c.Count("histories_with_adjacent_instance_ids", 1)
-		}
+	// the neighbours really have instance ids id-1 and id+1
+	var ids map[string]uint32
+	if err := w.API("c05.instanceids", map[string]interface{}{"uuid": h.Root, "names": []string{"kv0", "kv", "kv2"}}, &ids); err != nil {
+		return nil, err
+	}
+	if ids["kv"] == ids["kv0"]+1 && ids["kv2"] == ids["kv"]+1 {
+		c.Count("histories_with_adjacent_instance_ids", 1)
+	} else {
+		c.Count("histories_without_adjacent_instance_ids", 1)
 	}
 	return x, nil
 }
